@@ -14,7 +14,7 @@
    What is NOT proved here: that scipy's multivariate_normal.pdf/cdf are the MVN density / CDF
    (trusted; the witness search compares with an independent evaluation), IEEE rounding. *)
 From Coq Require Import String.
-From Coq Require Import Reals List Bool Arith Lia Permutation Lra.
+From Coq Require Import Reals List Bool Arith ZArith Lia Permutation Lra.
 From Cop Require Import Lib.NumpyR Model.Scores Spec.ScoresProofs.
 From CopRun Require Import Gen_gm_scores.
 Import ListNotations.
@@ -348,38 +348,38 @@ Print Assumptions C13_missing_column_silently_skipped.
 Print Assumptions C13_cdf_range_and_monotone.
 
 (* ====================================================================== *)
-(** * evaluation instance used by the correspondence check (labels, cells = nat tokens;
+(** * evaluation instance used by the correspondence check (labels, cells = Z tokens;
       the score of univariate j on cell v is the opaque token (j, v); the MVN oracle returns,
       per row, the record of its own call) *)
 Inductive ptok :=
-| Pv (fn : string) (allow_singular : bool) (cov : nat) (row : list (nat * nat))
+| Pv (fn : string) (allow_singular : bool) (cov : nat) (row : list (nat * Z))
 | Pun (f : string) (p : ptok).
 
-Definition tok_mvn (fn : string) (scores : list (list (nat * nat))) (c : nat) (allow : bool)
+Definition tok_mvn (fn : string) (scores : list (list (nat * Z))) (c : nat) (allow : bool)
   : result (list ptok) := Ok (map (Pv fn allow c) scores).
 
-Definition tok_model (is_fitted : bool) (cols : list nat) : model nat nat (nat * nat) nat :=
+Definition tok_model (is_fitted : bool) (cols : list Z) : model Z Z (nat * Z) nat :=
   {| fitted := is_fitted; columns := cols;
      univariates := map (fun j v => (j, v)) (seq 0 (length cols)); correlation := 7 |}.
 
-Definition c13_scores (cols : list nat) (X : container nat nat) :=
-  gm_transform_to_normal nat nat (nat * nat) Nat.eqb cols (univariates _ _ _ _ (tok_model true cols)) X.
-Definition c13_pdf (b : bool) (cols : list nat) (X : container nat nat) :=
-  gm_probability_density nat nat (nat * nat) Nat.eqb nat ptok tok_mvn (tok_model b cols) X.
-Definition c13_cdf (b : bool) (cols : list nat) (X : container nat nat) :=
-  gm_cumulative_distribution nat nat (nat * nat) Nat.eqb nat ptok tok_mvn (tok_model b cols) X.
-Definition c13_logpdf (b : bool) (cols : list nat) (X : container nat nat) :=
-  gm_log_probability_density nat nat (nat * nat) Nat.eqb nat ptok tok_mvn Pun (tok_model b cols) X.
+Definition c13_scores (cols : list Z) (X : container Z Z) :=
+  gm_transform_to_normal Z Z (nat * Z) Z.eqb cols (univariates _ _ _ _ (tok_model true cols)) X.
+Definition c13_pdf (b : bool) (cols : list Z) (X : container Z Z) :=
+  gm_probability_density Z Z (nat * Z) Z.eqb nat ptok tok_mvn (tok_model b cols) X.
+Definition c13_cdf (b : bool) (cols : list Z) (X : container Z Z) :=
+  gm_cumulative_distribution Z Z (nat * Z) Z.eqb nat ptok tok_mvn (tok_model b cols) X.
+Definition c13_logpdf (b : bool) (cols : list Z) (X : container Z Z) :=
+  gm_log_probability_density Z Z (nat * Z) Z.eqb nat ptok tok_mvn Pun (tok_model b cols) X.
 
 (* non-vacuity: the hypotheses of the theorems are satisfiable and the statements have content *)
 Lemma nat_eqb_spec' : forall a b, Nat.eqb a b = true <-> a = b.
 Proof. intros. apply Nat.eqb_eq. Qed.
 
 Example C13_demo_permutation :
-  c13_pdf true [10; 20; 30] (CFrame (Build_frame [30; 10; 20] [[3; 1; 2]; [6; 4; 5]])) =
-  c13_pdf true [10; 20; 30] (CArray2 [[1; 2; 3]; [4; 5; 6]]) /\
-  c13_pdf true [10; 20; 30] (CArray2 [[1; 2; 3]; [4; 5; 6]]) =
-  Ok [Pv "pdf" true 7 [(0, 1); (1, 2); (2, 3)]; Pv "pdf" true 7 [(0, 4); (1, 5); (2, 6)]].
+  c13_pdf true [10; 20; 30]%Z (CFrame (Build_frame [30; 10; 20]%Z [[3; 1; 2]; [6; 4; 5]]%Z)) =
+  c13_pdf true [10; 20; 30]%Z (CArray2 [[1; 2; 3]; [4; 5; 6]]%Z) /\
+  c13_pdf true [10; 20; 30]%Z (CArray2 [[1; 2; 3]; [4; 5; 6]]%Z) =
+  Ok [Pv "pdf" true 7 [(0, 1%Z); (1, 2%Z); (2, 3%Z)]; Pv "pdf" true 7 [(0, 4%Z); (1, 5%Z); (2, 6%Z)]].
 Proof. split; reflexivity. Qed.
 
 Example C13_demo_theorem_applies :
@@ -395,10 +395,10 @@ Proof.
 Qed.
 
 Example C13_demo_missing_column :
-  c13_cdf true [10; 20; 30] (CFrame (Build_frame [30; 10] [[3; 1]])) = Ok [Pv "cdf" false 7 [(0, 1); (2, 3)]] /\
-  c13_logpdf true [10; 20; 30] (CArray1 [1; 2]) = Err ValueError_shape /\
-  c13_logpdf false [10; 20; 30] (CArray1 [1; 2; 3]) = Err NotFittedError /\
-  c13_logpdf true [10; 20] (CSeries [(20, 5); (10, 4)]) = Ok [Pun "log" (Pv "pdf" true 7 [(0, 4); (1, 5)])].
+  c13_cdf true [10; 20; 30]%Z (CFrame (Build_frame [30; 10]%Z [[3; 1]]%Z)) = Ok [Pv "cdf" false 7 [(0, 1%Z); (2, 3%Z)]] /\
+  c13_logpdf true [10; 20; 30]%Z (CArray1 [1; 2]%Z) = Err ValueError_shape /\
+  c13_logpdf false [10; 20; 30]%Z (CArray1 [1; 2; 3]%Z) = Err NotFittedError /\
+  c13_logpdf true [10; 20]%Z (CSeries [(20, 5); (10, 4)]%Z) = Ok [Pun "log" (Pv "pdf" true 7 [(0, 4%Z); (1, 5%Z)])].
 Proof. repeat split; reflexivity. Qed.
 
 Open Scope R_scope.
